@@ -121,7 +121,7 @@ def sql_case(args):
 
 def run(tier, seed):
     rep = Report("C19", tier, seed, "exploration")
-    extra, nsql = (25, 160) if tier == "quick" else (120, 6000)
+    extra, nsql = (25, 640) if tier == "quick" else (120, 6000)
     rep.rule = ("value leg: all pairs / triples over boundary pools (+random values) of 13 types: eq/cmp/hash laws, comparison "
                 "kernels vs DataValue::cmp, print->parse through cast and CSV parser; SQL leg: single-column tables of 10 types "
                 "on both engines, ORDER BY / < / = join / GROUP BY / DISTINCT / MIN,MAX coherence; distinct non-trivial = distinct "
